@@ -86,6 +86,17 @@ class _VariationalStrategy(Module, ABC):
     def _clear_cache(self) -> None:
         clear_cache_hook(self)
 
+    def __deepcopy__(self, memo):
+        # The memoized quantities (prior and variational distributions, Cholesky factors, ...) are derived from the
+        # parameters and, after a forward pass with gradients enabled, hold non-leaf tensors, which cannot be
+        # deep-copied: a copy starts without them and recomputes them on demand.
+        result = self.__class__.__new__(self.__class__)
+        memo[id(self)] = result
+        for name, value in self.__dict__.items():
+            if name != "_memoize_cache":
+                result.__dict__[name] = deepcopy(value, memo)
+        return result
+
     def _expand_inputs(self, x: Tensor, inducing_points: Tensor) -> Tuple[Tensor, Tensor]:
         """
         Pre-processing step in __call__ to make x the same batch_shape as the inducing points
